@@ -221,24 +221,31 @@ def replay_tcp_parse(body):
 
         def setsockopt(self, *a):
             pass
-    delivered = []
-    c = TcpConnection(FakePoller(), onMessageReceived=delivered.append, socket=FakeSock())
     z = zlib.compress(pickle.dumps('forged'), 3)
-    ob = body['obligation']
-    if 'negative' in ob or 'disconnects-only' in ob or 'delivers-only' in ob:
-        buf = struct.pack('i', -5) + z + b'x'
-    else:
-        buf = struct.pack('i', len(z)) + z + b'tail'
-    setattr(c, '_TcpConnection__readBuffer', buf)
-    try:
-        msg = c._TcpConnection__processParseMessage()
-    except Exception as e:
-        return 1, 'exception escaped: %r' % (e,)
-    rest = getattr(c, '_TcpConnection__readBuffer')
-    out('buffer=%r -> message=%r state=%r rest=%r' % (buf[:12], msg, c.state, rest))
-    if buf.startswith(struct.pack('i', -5)):
-        return (1 if (msg is not None or c.state != CONNECTION_STATE.DISCONNECTED) else 0), 'negative length field'
-    return (1 if (msg != 'forged' or rest != b'tail') else 0), 'valid frame not delivered/consumed exactly'
+    frame = struct.pack('i', len(z)) + z
+    scenarios = [('negative-length', struct.pack('i', -5) + z + b'x', 'disconnect')]
+    for cut in range(0, len(frame)):
+        scenarios.append(('incomplete-%d' % cut, frame[:cut], 'wait'))
+    scenarios.append(('complete', frame, 'deliver'))
+    scenarios.append(('complete+tail', frame + b'tail', 'deliver'))
+    scenarios.append(('garbage-payload', struct.pack('i', 5) + b'\x00\x01\x02\x03\x04rest', 'disconnect'))
+    for name, buf, want in scenarios:
+        delivered = []
+        c = TcpConnection(FakePoller(), onMessageReceived=delivered.append, socket=FakeSock())
+        setattr(c, '_TcpConnection__readBuffer', buf)
+        try:
+            msg = c._TcpConnection__processParseMessage()
+        except Exception as e:
+            return 1, '%s: exception escaped: %r' % (name, e)
+        rest = getattr(c, '_TcpConnection__readBuffer')
+        if want == 'disconnect' and (msg is not None or c.state != CONNECTION_STATE.DISCONNECTED):
+            return 1, '%s: buffer %r -> message=%r state=%r (expected disconnect, nothing delivered)' % (name, buf[:12], msg, c.state)
+        if want == 'wait' and (msg is not None or rest != buf or c.state != CONNECTION_STATE.CONNECTED):
+            return 1, '%s: %d of %d frame bytes present -> message=%r state=%r rest=%d bytes (expected: wait, buffer untouched)' % (
+                name, len(buf), len(frame), msg, c.state, len(rest))
+        if want == 'deliver' and (msg != 'forged' or rest != buf[len(frame):]):
+            return 1, '%s: message=%r rest=%r (expected the message and exactly the frame consumed)' % (name, msg, rest)
+    return 0, 'all native framing scenarios behave as the contract says'
 
 
 # ------------------------------------------------------------------------------------------------ journal
